@@ -193,6 +193,8 @@ pub fn parse_kind(s: &str) -> Option<io::ErrorKind> {
         "OutOfMemory" => OutOfMemory,
         "HostUnreachable" => HostUnreachable,
         "AddrNotAvailable" => AddrNotAvailable,
+        "Interrupted" => Interrupted,
+        "WouldBlock" => WouldBlock,
         _ => return None,
     })
 }
